@@ -22,7 +22,8 @@ Definition tgood (w : Z) (c : option (nat * (Z * Z))) (pb : list (nat * (Z * Z))
   | ALoad ts a => good w (ts, a) /\ (inkey t pb -> cell_ge c ts a)
   | ACmp ts a o v la => good w (ts, a) /\ In (o, (v, la)) pb /\ cell_ge c v la /\ (inkey t pb -> ts <= v)
   | ACas ts a o v la => good w (ts, a) /\ In (o, (v, la)) pb /\ cell_ge c v la /\ v < ts /\ la <= a /\ ~ inkey t pb
-  | ARet _ | ADone _ => True
+  | ARet ts | ADone (Some ts) => exists la, cell_ge c ts la      (* the cached timestamp has caught up with ts *)
+  | ADone None => True
   end.
 
 Record AInv (s : asys) : Prop := {
@@ -51,6 +52,8 @@ Proof.
   - destruct H as [A B]. split; [eapply good_mono; eauto|auto].
   - destruct H as [A [B [C D]]]. split; [eapply good_mono; eauto|]. split; [auto|]. split; [auto|]. auto.
   - destruct H as [A [B [C [D [E F]]]]]. split; [eapply good_mono; eauto|]. repeat split; auto.
+  - destruct H as [la H]. exists la. auto.
+  - destruct r as [ts|]; [destruct H as [la H]; exists la; auto|exact Logic.I].
 Qed.
 
 Lemma ainv_init : forall n w0, AInv (init_asys n w0).
@@ -121,7 +124,8 @@ Proof.
       split; [exact A|]. split; [apply C; reflexivity|]. split; [apply cell_ge_refl|].
       intros K. destruct (B K) as [o' [v' [la' [E [L1 L2]]]]]. inversion E; subst. lia.
     + destruct H as [A [B [Cg D]]]. destruct (ts <=? v) eqn:Le.
-      * apply (ainv_put s t _ _ I Ht). exact Logic.I.
+      * apply (ainv_put s t _ _ I Ht). cbn [tgood]. destruct Cg as [o' [v' [la' [Ec [L1 L2]]]]].
+        exists la'. exists o', v', la'. repeat split; auto; lia.
       * apply (ainv_put s t _ _ I Ht). cbn. pose proof (G o (v, la) B) as [_ Gla]. cbn in Gla.
         destruct A as [A1 A2]. cbn in A1, A2.
         assert (Ha : a <= (if a <? la then la else a) /\ la <= (if a <? la then la else a) /\ (if a <? la then la else a) <= wall s)
@@ -135,10 +139,10 @@ Proof.
         -- apply Nat.eqb_eq in Eo; subst o'. eapply ainv_publish; eauto.
            ++ rewrite Hc. intros v0 la0 [o1 [v1 [la1 [E1 [L1 L2]]]]]. injection E1 as E1a E1b. subst o1 r'.
               pose proof (P o (v1, la1) (v, la) (C o (v1, la1) eq_refl) B) as Er. injection Er as Er1 Er2. lia.
-           ++ exact Logic.I.
+           ++ cbn [tgood]. exists a. apply cell_ge_refl.
         -- rewrite <- Hc. apply (ainv_put s t _ _ I Ht). cbn. split; [exact A|intros K; contradiction].
       * rewrite <- Hc. apply (ainv_put s t _ _ I Ht). cbn. split; [exact A|intros K; contradiction].
-    + apply (ainv_put s t _ _ I Ht). exact Logic.I.
+    + apply (ainv_put s t _ _ I Ht). exact H.
     + exact I.
   - destruct (nth_error (athr s) t) as [p|] eqn:Ht; [|exact I]. destruct p; try exact I.
     apply (ainv_put s t _ _ I Ht). exact Logic.I.
@@ -191,6 +195,16 @@ Lemma arec_good : forall s l a, AInv s -> arec s = Some (l, a) ->
 Proof.
   intros s l a [P G C T] H. unfold arec in H. destruct (acell s) as [[o r]|] eqn:Hc; [|discriminate].
   inversion H; subst r. exact (G o (l, a) (C o (l, a) eq_refl)).
+Qed.
+
+(* the cached timestamp has caught up with every timestamp a call returned (or is about to return) *)
+Lemma catches_up : forall s t ts, AInv s ->
+  (nth_error (athr s) t = Some (ADone (Some ts)) \/ nth_error (athr s) t = Some (ARet ts)) ->
+  exists l a, arec s = Some (l, a) /\ ts <= l.
+Proof.
+  intros s t ts [P G C T] H. unfold arec.
+  assert (K : exists la, cell_ge (acell s) ts la) by (destruct H as [H|H]; exact (T t _ H)).
+  destruct K as [la [o [v' [la' [E [L1 L2]]]]]]. rewrite E. exists v', la'. split; [reflexivity|exact L1].
 Qed.
 
 (* the clock never goes back *)
